@@ -243,9 +243,10 @@ func (m *vfModel) observeRole(ctx *vfReqCtx, in *vfIntent, resp *vfResp) {
 		}
 	} else {
 		// C08: only an administrator or automation administrator, only for configured identities
-		okActor := rr.Actor == "root" || rr.Actor == "autoadmin" || (rr.Actor == "gadmin" && w.cfg.GroupsLDAP)
+		isAdmin, certain := w.adminTruth(rr.Actor)
+		okActor := isAdmin || rr.Actor == "autoadmin"
 		okIdentity := rr.Identity == "auto1" || rr.Identity == "auto2" || (rr.Identity == "auto3" && w.cfg.GroupsLDAP)
-		if !okActor || !okIdentity {
+		if (!okActor && certain) || !okIdentity {
 			w.violate("C08", "automation-cert-unauthorised", fmt.Sprintf("automation-cert-unauthorised:actor=%v:identity=%v", okActor, okIdentity),
 				fmt.Sprintf("automation certificate for %q minted by %q", rr.Identity, rr.Actor))
 		}
